@@ -27,7 +27,7 @@ EXTENDS PprofRules
 CONSTANT Broken   \* "none"; "reportFiltersInPlace": the report filters the shared profile (vacuity guard)
 
 \* ---- the machine over a small configuration space
-S(st, a, b) == [stack |-> st, v |-> <<a, b>>]
+S(st, a, b) == [stack |-> st, v |-> <<a, b>>, t |-> ""]
 Contents == { <<S(<<"a", "b">>, 1, 10)>>, <<S(<<"a", "b">>, 2, 0), S(<<"c">>, 0, 5)>>, <<S(<<"b">>, 3, 3), S(<<"a", "a", "b">>, 1, 1)>> }
 Names == {"s1", "s2", "s3"}
 Assignments == { <<"focus", {"a"}>>, <<"focus", {}>>, <<"ignore", {"c"}>>, <<"hide", {"b"}>>, <<"g", "files">>, <<"si", 1>>, <<"rel", TRUE>> }
